@@ -1152,10 +1152,14 @@ def FIBER(
     def power(A):  # total instantaneous power; a one-polarisation field is a 1-D array (A[0], A[1] would be its first two samples)
         return np.abs(A) ** 2 if A.ndim == 1 else np.abs(A[0]) ** 2 + np.abs(A[1]) ** 2
 
+    def step(A):  # step giving a maximum nonlinear phase phi_max; a dark field propagates linearly in one step
+        peak = (gamma * power(A)).max()
+        return phi_max / peak if peak > 0 else length
+
     h = (
         length
         if (beta_2 == 0 and beta_3 == 0) or gamma == 0
-        else phi_max / (gamma * power(A)).max()
+        else step(A)
     )
 
     x_length = h
@@ -1174,7 +1178,7 @@ def FIBER(
             barra_progreso.update(100 * h / length)
 
         h = (
-            phi_max / (gamma * power(A)).max()
+            step(A)
             if gamma != 0
             else length
         )
